@@ -537,8 +537,10 @@ pub fn same_number(exp: &RVal, got: &RVal) -> bool {
         (RVal::Int(a), RVal::Int(b)) => a == b,
         // integer expected, output spelled with fraction/exponent: must denote exactly it
         (RVal::Int(a), RVal::Float(f)) => f.fract() == 0.0 && f.abs() < 9.007199254740992e15 && (*f as i128) == *a,
-        // non-integer spelling expected: nearest double
-        (RVal::Float(f), RVal::Int(b)) => (*b as f64) == *f,
+        // the nearest double expected, the row holds an integer literal of the 64-bit range: such a
+        // literal denotes exactly that integer (the property's own value notion), so it must BE the
+        // double - 18446744073709551615 is not 2^64 although it rounds to it
+        (RVal::Float(f), RVal::Int(b)) => (*b as f64) == *f && f.fract() == 0.0 && f.abs() < 3.5e38 && (*f as i128) == *b,
         (RVal::Float(a), RVal::Float(b)) => a == b,
         _ => false,
     }
